@@ -148,7 +148,7 @@ def gen_opts(t):
 def gen_load(t, force_cache=False):
     uc = t.draw(4, "useCache") < 3
     wc = t.draw(4, "writeCache") < 3
-    probes = [[t.draw(5, "probe"), t.draw(1 << 20, "elem"), t.draw(1 << 20, "a"), t.draw(4, "b")]
+    probes = [[t.draw(6, "probe"), t.draw(1 << 20, "elem"), t.draw(1 << 20, "a"), t.draw(4, "b")]
               for _ in range(t.intrange(3, 6, "nprobes"))]
     return {"op": "load", "useCache": uc or force_cache, "writeCache": wc, "probes": probes}
 
@@ -450,6 +450,13 @@ def execute(plan, scratch):
                                  "payload": "payload-flip"}[kind])
         log.append(ent)
 
+    seen, uniq = set(), []  # one violation per (clause, finding) and run
+    for v in viol:
+        k = (v["clause"], v["detail"].get("finding"))
+        if k not in seen:
+            seen.add(k)
+            uniq.append(v)
+    viol = uniq
     desc = json.dumps([plan["map"], plan["opts"], plan["ops"]], sort_keys=True)
     dig = hashlib.blake2b((desc + json.dumps(log, sort_keys=True)).encode(), digest_size=8).hexdigest()
     return {
@@ -465,7 +472,6 @@ def execute(plan, scratch):
 
 
 def run_probes(inv, net, probes):
-    rd = roadnet.R()
     els = list(net.elements.values())
     inv.registry()
     if inv.viol:  # dangling links: the other probes would only stumble over the same broken objects
@@ -482,6 +488,8 @@ def run_probes(inv, net, probes):
         elif kind == 3:
             pool = (list(net.lanes), list(net.allRoads), list(net.intersections) or list(net.lanes))[b % 3]
             inv.tolerant(pool[e % len(pool)], a // 2, a % 2)
+        elif kind == 5:
+            inv.drivable_point(e, a)
         else:  # all maneuvers of an intersection (or a lane if the map has none)
             pool = list(net.intersections) or list(net.lanes)
             inv.element(pool[e % len(pool)])
